@@ -1,2 +1,37 @@
-(* Props/C04.v — placeholder, theorems added in a later commit *)
-From NIR Require Import Model.Serial.
+(* Props/C04.v — Reader decodes every valid encoding of the layout.  (interim: invariance of the reader under
+   the physical string encoding; invariance under integer width / optional fields from Proofs/SimProofs.v is
+   added when that library is complete.  Chunking, compression and creation order are invisible above the h5py
+   API and only exercised by the correspondence run.) *)
+From NIR Require Import Model.Serial Proofs.SerialProofs.
+
+(* the decoded value of a string dataset does not depend on its physical encoding *)
+Theorem c04_string_encoding_irrelevant : forall e1 e2 s, read_dataset (H5Str e1 s) = read_dataset (H5Str e2 s).
+Proof. reflexivity. Qed.
+
+Theorem c04_string_array_encoding_irrelevant : forall e1 e2 rows,
+  read_dataset (H5Strs e1 rows) = read_dataset (H5Strs e2 rows).
+Proof. reflexivity. Qed.
+
+(* edge endpoints are accepted as text whether they arrive as str or as bytes *)
+Theorem c04_edges_bytes_or_str : forall (es : list (string * string)),
+  edge_rows (VList (map (fun e => VTuple [VBytes (fst e); VBytes (snd e)]) es)) = Ok es /\
+  edge_rows (VList (map (fun e => VTuple [VStr (fst e); VStr (snd e)]) es)) = Ok es.
+Proof.
+  intros es. split; cbn [edge_rows]; induction es as [|[a b] es IH]; cbn [map mapM bind as_text fst snd];
+    try reflexivity; rewrite IH; reflexivity.
+Qed.
+
+(* an empty edge dataset of any dtype decodes to the empty edge list *)
+Theorem c04_empty_edges : forall dt r tok i, edge_rows (VArr dt (0 :: r) tok i) = Ok [].
+Proof. reflexivity. Qed.
+
+(* re-writing a graph that was read yields a file that is read through the same refinement *)
+Theorem c04_rewrite : forall g t, write g = Ok t ->
+  exists d', norm_entries (to_dict g) = Ok d' /\ read t = from_dict d' /\ read_version t = Ok nir_version.
+Proof. exact read_write_refines. Qed.
+
+Print Assumptions c04_string_encoding_irrelevant.
+Print Assumptions c04_string_array_encoding_irrelevant.
+Print Assumptions c04_edges_bytes_or_str.
+Print Assumptions c04_empty_edges.
+Print Assumptions c04_rewrite.
